@@ -620,8 +620,13 @@ func c33Run(t *testing.T, r *kit.Run, c c33Case, loads [][]byte, base string) (o
 			}
 		case 'S':
 			err := s.Snapshot(0)
-			for deadline := time.Now().Add(60 * time.Second); err != nil && strings.Contains(err.Error(), "CAS conflict") && time.Now().Before(deadline); {
-				time.Sleep(20 * time.Millisecond) // a transient refusal while another snapshot-gated activity runs
+			// Two refusals are transient and are answered by asking again, so that whether
+			// the snapshot exists does not depend on goroutine timing: the snapshot gate being
+			// held, and raft's "wait until the configuration entry ... has been applied" (its
+			// FSM goroutine has not yet passed the membership entry of a join/remove).
+			for deadline := time.Now().Add(60 * time.Second); err != nil && time.Now().Before(deadline) &&
+				(strings.Contains(err.Error(), "CAS conflict") || strings.Contains(err.Error(), "wait until the configuration entry")); {
+				time.Sleep(10 * time.Millisecond)
 				err = s.Snapshot(0)
 			}
 			if err != nil && err != ErrNothingNewToSnapshot && err != ErrNoWALToSnapshot &&
@@ -652,6 +657,19 @@ func c33Run(t *testing.T, r *kit.Run, c c33Case, loads [][]byte, base string) (o
 	if tables0 != model.tables() {
 		// not C33's business, but the alphabet would be meaningless: stop loudly
 		panic(fmt.Sprintf("harness: history %q: the database before the shutdown is not what the operations should have produced:\n%.300s\n-- expected --\n%.300s", h, tables0, model.tables()))
+	}
+	if !noSnap && strings.ContainsAny(h, "JR") {
+		// The snapshot-on-close is refused by raft while its FSM goroutine has not yet
+		// passed the last membership entry; give it the moment it needs, so that the
+		// outcome of the close does not depend on goroutine timing.
+		for deadline := time.Now().Add(10 * time.Second); time.Now().Before(deadline); {
+			st := s.raft.Stats()
+			if st["fsm_pending"] == "0" && st["applied_index"] == st["last_log_index"] {
+				break
+			}
+			time.Sleep(5 * time.Millisecond)
+		}
+		time.Sleep(150 * time.Millisecond)
 	}
 	must("close", s.Close(true))
 	closed = true
